@@ -104,6 +104,56 @@ def requests(seed=1, size="quick"):
         xs = [rng.randint(0, 9) for _ in range(rng.randint(1, 8))]
         out.append(("argmin " + " ".join(map(str, xs)), lambda xs=xs: _val(lambda: bf.argmin(list(xs)))))
     out.append(("argmin", lambda: _val(lambda: bf.argmin([]))))
+    # methods: finalize on a bare object state, __init__, uses_storage_type
+    def fin(k, n, mx):
+        o = cs.SingleMemoryStorageSchedule()
+        o._n, o._max_n = n, mx
+        try:
+            o.finalize(k)
+            return "%d %s" % (o._n, "-" if o._max_n is None else o._max_n)
+        except Exception as e:   # noqa: BLE001
+            return "raise:" + type(e).__name__
+    for k in (-1, 0, 1, 2, 5, 300):
+        for n in (0, 1, 2, 5, 300, 301):
+            for mx in (None, 1, 2, 5, 300):
+                out.append(("finalize %d %d %s" % (k, n, "-" if mx is None else mx), lambda k=k, n=n, mx=mx: fin(k, n, mx)))
+
+    def ini(mx):
+        try:
+            o = cs.SingleMemoryStorageSchedule.__new__(cs.SingleMemoryStorageSchedule)
+            cs.CheckpointSchedule.__init__(o, mx)
+            return "%d %d %s" % (o._n, o._r, "-" if o._max_n is None else o._max_n)
+        except Exception as e:   # noqa: BLE001
+            return "raise:" + type(e).__name__
+    for mx in (None, -3, 0, 1, 7):
+        out.append(("init %s" % ("-" if mx is None else mx), lambda mx=mx: ini(mx)))
+
+    def uses(mk, st):
+        try:
+            r = mk().uses_storage_type(cs.StorageType[st])
+            return "None" if r is None else ("1" if r else "0")
+        except Exception as e:   # noqa: BLE001
+            return "raise:" + type(e).__name__
+    for st in ("RAM", "DISK", "WORK", "NONE"):
+        out.append(("uses singleMemory %s" % st, lambda st=st: uses(cs.SingleMemoryStorageSchedule, st)))
+        out.append(("uses singleDisk %s" % st, lambda st=st: uses(cs.SingleDiskStorageSchedule, st)))
+        out.append(("uses none %s" % st, lambda st=st: uses(cs.NoneCheckpointSchedule, st)))
+        for ram, disk in ((0, 2), (2, 0), (1, 1), (0, 0)):
+            def mkms(ram=ram, disk=disk):
+                return cs.MultistageCheckpointSchedule(5 if ram + disk else 1, ram, disk)
+            try:
+                o = mkms()
+            except Exception:   # noqa: BLE001
+                continue
+            out.append(("uses multistage %s %d %d" % (st, o._snapshots_in_ram, o._snapshots_on_disk), lambda st=st, mk=mkms: uses(mk, st)))
+        for bst in ("RAM", "DISK"):
+            out.append(("uses mixed %s %s" % (st, bst), lambda st=st, bst=bst: uses(
+                lambda: cs.MixedCheckpointSchedule(4, 2, storage=cs.StorageType[bst]), st)))
+            out.append(("uses twoLevel %s %s" % (st, bst), lambda st=st, bst=bst: uses(
+                lambda: cs.TwoLevelCheckpointSchedule(2, 1, binomial_storage=cs.StorageType[bst]), st)))
+        out.append(("uses revolve %s 2 0" % st, lambda st=st: uses(lambda: cs.Revolve(5, 2), st)))
+        out.append(("uses revolve %s 2 -" % st, lambda st=st: uses(lambda: cs.DiskRevolve(5, 2), st)))
+        out.append(("uses revolve %s 1 2" % st, lambda st=st: uses(lambda: cs.HRevolve(5, 1, 2), st)))
     # generators
     for N in range(1, 30 if big else 14):
         for ram in range(0, 4):
